@@ -16,7 +16,7 @@ void h_bound20(void) {
   struct instr I = {0}; uint8_t o; I.assembly_opt = o;
   for (int i = 0; i < FILTERED_STR_LEN - 1; i++) { char c; FBUF[i] = c; }
   FBUF[FILTERED_STR_LEN - 1] = 0; g_buf = FBUF;
-  asm_build_index_tables();
+  STATIC_ZERO_INIT_INDEX_TABLES(); asm_build_index_tables();
   int rc = line_to_instr(&I, FBUF);
   if (rc != EXIT_SUCCESS) { REACH("rejected"); return; }
   g_key = I.key;
